@@ -595,7 +595,76 @@ def r03_12(ctx):
     return rr
 
 
-RULES = [r03_1, r03_2, r03_3, r03_4, r03_5, r03_6, r03_7, r03_8, r03_9, r03_10, r03_11, r03_12]
+# node classes built under a condition on their input's grid whose layer re-plans from the input's CURRENT chunks (or that are barriers)
+GRID_GUARDED_REVIEWED = {
+    "Rechunk": "the condition only decides whether a rechunk is needed at all; the node's target is a literal and its plan is computed from the input's current chunks at lowering",
+    "TasksRechunk": "as Rechunk (built by Rechunk._lower / P2PRechunk from the input's chunks at that moment, after simplification of the input has settled inside lower_once)",
+    "P2PRechunk": "as Rechunk",
+    "Reshape": "Reshape recomputes its in/out chunk plan from the input's current chunks (the single-partition sibling ReshapeLowered is not exempt: R04.12)",
+    "ChunksFreeze": "a layout barrier: it restores the frozen chunks by a rechunk whatever arrives (R03.2)",
+}
+
+
+def r03_13(ctx):
+    rr = RuleResult(
+        "R03.13", "GUARD",
+        "a node class that is built only under a condition on the block grid of the expression that becomes its input (a precondition of the node's algorithm: "
+        "`supports_native_sliding_window(x.chunks[axis], w)`, `len(x.chunks[1]) == 1`) declares that it observes that grid - the precondition was established once, "
+        "at construction, and a rewrite below may invalidate it",
+        min_instances=6,
+    )
+    from ..cfg import CFG, stmt_of
+    from ..dataflow import Defs
+    from ..refguards import _inline
+    from .common import chain_conjuncts
+
+    repo = ctx.repo
+    expr_cls = {c.fq: c for c in repo.expr_classes() if c.module.is_unit}
+    seen = {}
+    for f in repo.all_functions():
+        if "/tests/" in f.module.relpath or f.parent is not None:
+            continue
+        cfg = None
+        defs = None
+        for n in body_walk(f.node):
+            if not (isinstance(n, ast.Call) and isinstance(n.func, (ast.Name, ast.Attribute)) and n.args and not isinstance(n.args[0], ast.Starred)):
+                continue
+            r = repo.resolve_expr(n.func, f.module, f)
+            if not (r and r[0] == "class" and r[1].fq in expr_cls):
+                continue
+            if cfg is None:
+                cfg, defs = CFG(f.node), Defs(f.node)
+            st = stmt_of(cfg, n)
+            if st is None:
+                continue
+            texts = {unparse(n.args[0]), unparse(_inline(n.args[0], defs, module=f.module))}
+            conj = chain_conjuncts(cfg, st, f.node, f.module)
+            hits = sorted(c for c in conj if any((t + ".chunks") in c or (t + ".numblocks") in c for t in texts))
+            if hits:
+                seen.setdefault(r[1].fq, []).append((f, n, hits[0]))
+    for fq, sites in sorted(seen.items()):
+        c = expr_cls[fq]
+        f, n, cond = sites[0]
+        cst = f"{c.construct}::built under a condition on its input's grid"
+        hit = repo.class_attr(c, "_requires_grid_preservation")
+        rets = [unparse(x.value) for x in body_walk(hit[1].node) if isinstance(x, ast.Return) and x.value is not None] if hit and isinstance(hit[1], FuncInfo) else []
+        rr.inst(cst, sites=[s_[0].construct for s_ in sites][:3], condition=cond[:90], answered_by=hit[0].name if hit else None)
+        if rets == ["True"]:
+            continue
+        if c.name in GRID_GUARDED_REVIEWED:
+            rr.exempt(cst, GRID_GUARDED_REVIEWED[c.name])
+            continue
+        ctx.finding(
+            rr, cst,
+            f"{c.name} is built in {f.qualname} only when `{cond[:80]}` holds for its input, but does not declare _requires_grid_preservation: the rolling sum of a column of a rolling sum, "
+            f"sliding_window_view(s[:, 0], 3).sum(-1) with s = sliding_window_view(x, 3, axis=-1).sum(-1), SILENTLY computed window + block total - the banded kernel had been chosen for s's advertised "
+            f"chunks (2, 2, 2) and ran on the single block s was later fused to",
+            func=f, node=n,
+        )
+    return rr
+
+
+RULES = [r03_1, r03_2, r03_3, r03_4, r03_5, r03_6, r03_7, r03_8, r03_9, r03_10, r03_11, r03_12, r03_13]
 
 LEVEL_TEXT = (
     "Static decision of the layout-barrier clause of C03 ('even when optimization internally chose a different block "
